@@ -17,12 +17,15 @@ import (
 //	        of the queue query, see objQuery.run's shift)
 //	service every request context -> state PAUSED, batch state COMPLETED,
 //	        batch request/response counts 0; active requests are refunded and
-//	        dropped, earned fees refunded (in-flight items, not in the list of
-//	        durable objects: not queried)
+//	        dropped (in-flight items: not queried); earned fees refunded: the
+//	        EarnedFees query must answer "none"
 //	oracle  running feeds -> paused (the feed answer shows the state of its
 //	        request context)
 //
 // All other modules document no zero-height step: their answers must be equal.
+// zhRefunded: the expected answer "nothing left" (any not-found answer matches).
+const zhRefunded = "ZH-REFUNDED"
+
 func rebaseAnswers(a Answers, h int64) Answers {
 	out := Answers{}
 	for m, as := range a {
@@ -35,7 +38,7 @@ func rebaseAnswers(a Answers, h int64) Answers {
 }
 
 func rebaseAnswer(mod, id, ans string, h int64) string {
-	if strings.HasPrefix(ans, "ERR ") || strings.HasPrefix(ans, "PANIC ") {
+	if (strings.HasPrefix(ans, "ERR ") || strings.HasPrefix(ans, "PANIC ")) && !(mod == "service" && strings.HasPrefix(id, "earned/")) {
 		return ans
 	}
 	edit := func(f func(v any)) string {
@@ -47,6 +50,9 @@ func rebaseAnswer(mod, id, ans string, h int64) string {
 		return canonBytes(v)
 	}
 	switch {
+	case mod == "service" && strings.HasPrefix(id, "earned/"):
+		// earned fees are refunded by the zero-height step: none are left
+		return zhRefunded
 	case mod == "htlc" && strings.HasPrefix(id, "htlc/"):
 		return edit(func(v any) {
 			if e, ok := numAt(v, "htlc.expiration_height"); ok {
